@@ -349,7 +349,9 @@ class GraphState:
         else:
             # Defensive comparison for types like numpy arrays
             try:
-                changed = bool(old_value != value)
+                # a value of another type is another value, even when it compares
+                # equal (True == 1, 1 == 1.0): its consumers must see it
+                changed = type(old_value) is not type(value) or bool(old_value != value)
             except (ValueError, TypeError):
                 # Comparison failed (e.g., numpy arrays), assume changed
                 changed = old_value is not value
